@@ -1,6 +1,7 @@
 // C19 — sqrt returns the floor of the square root at the result's resolution
 #pragma once
 #include "../cnlval.h"
+#include "../sweep.h"
 
 namespace c19 {
 using namespace vf;
